@@ -12,6 +12,15 @@ open Fit.Msg Fit.Value Fit.Activity Fit.Gen Fit.Gen.Tool
 
 /-! ## concealer -/
 
+def mkRec (ts lat long d : Nat) : Message :=
+  { num := mnRecord, devFields := [], fields := [
+      { base := some { num := fnRecordTimestamp, baseType := btUint32 }, value := .uint32 ts },
+      { base := some { num := fnRecordPositionLat, baseType := btSint32 }, value := .int32 lat },
+      { base := some { num := fnRecordPositionLong, baseType := btSint32 }, value := .int32 long },
+      { base := some { num := fnRecordDistance, baseType := btUint32, accumulate := true }, value := .uint32 d }] }
+
+
+
 /-- **Concealing hides the stretch.** On an activity whose records carry valid non-decreasing distances and whose
 records have at most one position_lat and one position_long field, after `Conceal(first, last)` every record inside
 the first `first` or the last `last` units of distance has no position field left (position-wise: the output
@@ -65,6 +74,45 @@ theorem C20_conceal_only_positions (first last : Nat) (ms : List Message) :
   refine ⟨h.length_eq.symm, fun i m m' hm hm' => ?_⟩
   have t := h.get i m m' hm hm'
   exact ⟨t, t.eq_of_other⟩
+
+/-- **No lap or session position points into a concealed stretch** — the full statement: for every activity with
+valid non-decreasing distances whose laps (sessions) are well-formed and follow each other in time, after concealing
+no lap (session) keeps a start/end position that belongs to an instant outside the revealed window, unless it was
+replaced by the coordinates of the first / last revealed record (`noLeakB`, FitModel/ActivitySpec.lean).
+FALSE on the pinned tree: see the two witnesses below (KF-C20-1 = design finding F17, KF-C20-2). -/
+def C20_conceal_lap_session_full : Prop :=
+  ∀ (ph : PH) (first last : Nat) (ms : List Message), (ph = lapPH ∨ ph = sesPH) → DistOK ms → lapsSeqB ph ms = true →
+    noLeakB ph first last ms (conceal first last ms) = true
+
+/-- the design witness of F17: 10 records 100 m and 10 s apart, lap 1 = the first 3 records, lap 2 = the other 7,
+total_timer_time in milliseconds as real files carry it -/
+def f17Witness : List Message :=
+  let t0 := 1000000000
+  let recd (i : Nat) : Message := mkRec (t0 + 10 * i) (1000 + i) (2000 + i) (10000 * i)
+  let lap (a b : Nat) : Message :=
+    { num := mnLap, devFields := [], fields := [
+        { base := some { num := fnTimestamp, baseType := btUint32 }, value := .uint32 (t0 + 10 * b) },
+        { base := some { num := fnLapStartTime, baseType := btUint32 }, value := .uint32 (t0 + 10 * a) },
+        { base := some { num := fnLapStartPositionLat, baseType := btSint32 }, value := .int32 (1000 + a) },
+        { base := some { num := fnLapStartPositionLong, baseType := btSint32 }, value := .int32 (2000 + a) },
+        { base := some { num := fnLapEndPositionLat, baseType := btSint32 }, value := .int32 (1000 + b) },
+        { base := some { num := fnLapEndPositionLong, baseType := btSint32 }, value := .int32 (2000 + b) },
+        { base := some { num := fnLapTotalTimerTime, baseType := btUint32 }, value := .uint32 ((b - a) * 10 * 1000) }] }
+  [recd 0, recd 1, recd 2, lap 0 2, recd 3, recd 4, recd 5, recd 6, recd 7, recd 8, recd 9, lap 3 9]
+
+/-- KF-C20-1 (F17): concealing the first 500 m leaves lap 1 (entirely inside the stretch) with its end position and
+lap 2 with the start position of record 4 — the hypotheses of the full statement hold, its conclusion does not -/
+theorem C20_conceal_lap_session_F17_witness :
+    distOKB f17Witness = true ∧ lapsSeqB lapPH f17Witness = true ∧
+    noLeakB lapPH 50000 0 f17Witness (conceal 50000 0 f17Witness) = false ∧
+    unitsDisagree lapPH 50000 f17Witness = true := by decide +kernel
+
+/-- KF-C20-2: concealing the last 2000 m of the same 900 m activity conceals every record, yet lap 1 keeps all its
+positions -/
+theorem C20_conceal_lap_session_allend_witness :
+    distOKB f17Witness = true ∧ lapsSeqB lapPH f17Witness = true ∧
+    noLeakB lapPH 0 200000 f17Witness (conceal 0 200000 f17Witness) = false ∧
+    allConcealedAtEnd 200000 f17Witness = true := by decide +kernel
 
 /-! ## remover -/
 
@@ -135,13 +183,6 @@ theorem C20_reduce_rdp_sublist (simplified : List Nat) (ms out : List Message)
   reduceByRdp_ok h
 
 /-! ## non-vacuity -/
-
-def mkRec (ts lat long d : Nat) : Message :=
-  { num := mnRecord, devFields := [], fields := [
-      { base := some { num := fnRecordTimestamp, baseType := btUint32 }, value := .uint32 ts },
-      { base := some { num := fnRecordPositionLat, baseType := btSint32 }, value := .int32 lat },
-      { base := some { num := fnRecordPositionLong, baseType := btSint32 }, value := .int32 long },
-      { base := some { num := fnRecordDistance, baseType := btUint32, accumulate := true }, value := .uint32 d }] }
 
 def demo : List Message := [mkRec 10 1 2 0, mkRec 20 3 4 100, mkRec 30 5 6 100, mkRec 40 7 8 250]
 
